@@ -3,7 +3,7 @@ group_by (C04), roll (C05), split (C06), time_split (C07)."""
 import json
 
 from catalog import dec, fn1
-from muxprop import lifetimes, stage_inputs, WIDTH
+from muxprop import lifetimes, stage_inputs, WIDTH, wf_monitor
 
 
 def root_trace(items):
@@ -116,6 +116,9 @@ def check_sites(term, items, bounds, names, check_close_order=True):
         parents = lifetimes(tr_in)
         if not all(p['closed'] for p in parents):
             continue
+        w = wf_monitor(tr_inner)
+        if w:
+            return '%s: inner lifetimes are not kept apart: %s' % (st[0], w)
         inners = lifetimes(tr_inner)
         by_parent = {}
         for lt in inners:
